@@ -197,6 +197,8 @@ class NetGen:
                     N = 1
                 else:
                     N = r.choice((1, 1, 2, 2, 3, 4, 5))
+                    if "long" in force and i == 0 or r.random() < 0.03:
+                        N = r.choice((11, 12, 13))  # two-digit segment indices
                 lam = r.choice((1, 2, 2, 3, 3, 4, 5))
                 if r.random() < 0.15:
                     lam = round(r.uniform(1.0, 4.0), 2)
@@ -210,7 +212,7 @@ class NetGen:
                         vsl = list(range(N))
                     else:
                         vsl = sorted(r.sample(range(N), r.randint(1, N)))
-                    alpha = distinct(0.0, 0.3)
+                    alpha = 0.0 if r.random() < 0.25 else distinct(0.0, 0.3)
                 links.append(
                     {
                         "id": f"L{i}",
